@@ -44,6 +44,9 @@ def cmd_check(pid, tier):
     except facts.Inconclusive as e:
         chk.inconc(str(e))
         kw = {}
+    except SystemExit as e:      # the tree does not build, or fact files are missing: nothing can be decided (fail closed, not a violation)
+        chk.inconc(str(e))
+        kw = {}
     except Exception as e:  # a shape the rule code did not foresee: fail closed, never crash silently
         import traceback
         tb = traceback.format_exc().strip().splitlines()
